@@ -77,7 +77,7 @@ func (c11) FaultKinds() []string {
 	return []string{"handler_writes_after_writeheader", "handler_deletes_cors_header", "handler_sets_vary", "preset_vary_present", "preset_cors_header_present", "zero_length_header_list", "multi_valued_origin"}
 }
 func (c11) Probes() []string {
-	return []string{"preflight_on_configured", "preflight_on_passthrough", "non_preflight_options_with_origin", "actual_request_with_preset", "handler_invoked_once", "reconfigure_to_passthrough_and_back", "via_long_lived_wrapped_handler", "bystander_request_headers"}
+	return []string{"preflight_on_configured", "preflight_on_passthrough", "non_preflight_options_with_origin", "actual_request_with_preset", "handler_invoked_once", "reconfigure_to_passthrough_and_back", "via_long_lived_wrapped_handler", "bystander_request_headers", "head_serialised_after_the_next_request"}
 }
 
 var c11HdrNames = []string{"Vary", "Access-Control-Allow-Origin", "Access-Control-Allow-Credentials", "Access-Control-Expose-Headers",
@@ -278,6 +278,7 @@ func (d *delegate) ServeHTTP(w http.ResponseWriter, r *http.Request) { d.h.Serve
 
 func (c11) Exec(plan any, c *Ctx) *Violation {
 	p := plan.(*C11Plan)
+	c11Pending = nil
 	var m *cors.Middleware
 	configured := false
 	if p.StartZero || len(p.Cfgs) == 0 {
@@ -317,8 +318,16 @@ func (c11) Exec(plan any, c *Ctx) *Violation {
 				q = q.withNoise(p.Noise[(idx/2)%len(p.Noise)])
 				c.hit("bystander_request_headers")
 			}
+			prev := c11Pending
+			c11Pending = nil
 			if v := c11Case(m, via, dg, configured, q, preset, sc, label, c); v != nil {
 				return v
+			}
+			if prev != nil {
+				c.hit("head_serialised_after_the_next_request")
+				if late := headerFP(prev.h); late != prev.fp {
+					return &Violation{Class: "response-changed-after-return", Key: "late", Detail: prev.what + fmt.Sprintf(": the handler wrote nothing, so the head is serialised when the chain has returned; it was %s then and is %s after the next request (%s) was served", prev.fp, late, q)}
+				}
 			}
 		}
 		return nil
@@ -512,8 +521,22 @@ func c11Case(m *cors.Middleware, via http.Handler, dg *delegate, configured bool
 	if got, want := string(rec.body), strings.Join(sc.Body, ""); got != want {
 		return &Violation{Class: "body-changed", Key: "body", Detail: ctxs() + fmt.Sprintf(": client got body %q, handler wrote %q", got, want)}
 	}
+	// a handler that wrote nothing: net/http serialises the head only when the whole chain
+	// has returned, possibly after other requests were served. The batch loop
+	// looks at this header map again after the NEXT case.
+	if sc.Status == 0 && len(sc.Body) == 0 && !pre {
+		c11Pending = &pendingHead{rec.h, headerFP(rec.h), ctxs()}
+	}
 	return nil
 }
+
+type pendingHead struct {
+	h    http.Header
+	fp   string
+	what string
+}
+
+var c11Pending *pendingHead // set by c11Case, consumed by the batch loop (one engine run at a time per process)
 
 func (c11) Shrink(plan any) []any {
 	p := plan.(*C11Plan)
